@@ -6,7 +6,7 @@ PLAN = dict(
          "and signature algorithm come from the case PRNG) with the field-equality and signature laws, an independent SM2-SM3 "
          "verification, issuer-key substitution, issuer gating and the complete sweep: 4 substitutions (^0x01, ^0x80, 0x00, 0xFF; "
          "identity mutants excluded) at every DER offset (every 4th offset, phase = object number mod 4, when the issuer key is P-384), every truncation and 2 trailing-data extensions. c15.chains: one case = one "
-         "generated PKI (a base chain of depth 0..3 changed by one of 20 recipes or a mix of 2-3, plus noise) built three times (SM2 keys, "
+         "generated PKI (a base chain of depth 0..3 changed by one of 21 recipes (cycle of 29: 8 slots mix 2-3 recipes), plus noise) built three times (SM2 keys, "
          "mixed key types, ECDSA twin through crypto/x509) and queried at 4+ explicit verification times x key-usage sets per target. "
          "c15.sha1: the object workload restricted to SHA-1 signature algorithms, run with GODEBUG=x509sha1=1 only. "
          "distinct = class keys (configuration | object kind / signer / algorithm / subject key / CA / constraints, or recipe / depth / "
